@@ -596,6 +596,11 @@ def load_known(pid):
         ln = ln.rstrip("\n")
         if not ln or ln.startswith("#"):
             continue
+        m = re.match(r"^fixed: property=(\S+) (\S+) (.*?) \[sig=(.*)\]\s*$", ln)
+        if m:       # "fixed: property=<id> <commit> <what failed> [sig=<signature>]"
+            if m.group(1) == pid:
+                out["fixed"][m.group(4)] = m.group(2) + " " + m.group(3)
+            continue
         parts = ln.split("\t")
         if len(parts) < 4:
             continue
